@@ -300,6 +300,27 @@ fn graph_family(c: &mut Cat, _rng: &mut Rng) {
     }
     pw.process(&mut w, mix);
     c.measure("graph.wide_mixer_hundreds_of_inputs_again", Z, || { for _ in 0..reps.min(200) { pw.process(&mut w, mix); } });
+    // a nested graph node fed from the outer graph (GraphNode with wired input nodes), a Delay node and a
+    // signal node are stock nodes too
+    {
+        use dasp_graph::node::GraphNode;
+        let mut inner = G::with_capacity(8, 8);
+        let i_in1 = inner.add_node(NodeData::new1(BoxedNode::new(node::Pass)));
+        let i_in2 = inner.add_node(NodeData::new1(BoxedNode::new(node::Pass)));
+        let i_sum = inner.add_node(NodeData::new1(BoxedNode::new(node::Sum)));
+        inner.add_edge(i_in1, i_sum, ()); inner.add_edge(i_in2, i_sum, ());
+        let gn: GraphNode<G, BoxedNode> = GraphNode { processor: dasp_graph::Processor::with_capacity(8), graph: inner, input_nodes: vec![i_in1, i_in2], output_node: i_sum, node_type: core::marker::PhantomData };
+        let mut outer = G::with_capacity(8, 8);
+        let s1 = outer.add_node(NodeData::new1(BoxedNode::new(f)));
+        let s2 = outer.add_node(NodeData::new1(BoxedNode::new(f)));
+        let nested = outer.add_node(NodeData::new1(BoxedNode::new(gn)));
+        let sink = outer.add_node(NodeData::new1(BoxedNode::new(node::Pass)));
+        outer.add_edge(s1, nested, ()); outer.add_edge(s2, nested, ()); outer.add_edge(nested, sink, ());
+        let mut po = dasp_graph::Processor::<G>::with_capacity(8);
+        po.process(&mut outer, sink);
+        c.measure("graph.nested_graph_node_with_wired_inputs_again", Z, || { for _ in 0..reps.min(300) { po.process(&mut outer, sink); } });
+        bb(outer[sink].buffers[0][0]);
+    }
     let mut d = G::with_capacity(128, 8192);
     let mut pd = dasp_graph::Processor::<G>::with_capacity(8);
     let nodes: Vec<_> = (0..96).map(|i| d.add_node(NodeData::new1(if i == 0 { BoxedNode::new(f) } else { BoxedNode::new(node::Sum) }))).collect();
